@@ -546,7 +546,8 @@ fn validate_variant_arm(input: &Variant, data_type_attrs: &DataTypeAttrs, errors
             continue;
         }
 
-        let supported = match (input.attrs.applicable_attr(&kind, data_type_attr.fallible, ty).is_some(), input.attrs.lit(ty).is_some(), input.attrs.pat(ty).is_some()) {
+        let attr = input.attrs.applicable_attr(&kind, data_type_attr.fallible, ty);
+        let supported = match (attr.is_some(), input.attrs.lit(ty).is_some(), input.attrs.pat(ty).is_some()) {
             (false, false, false) => true,
             (true, false, false) | (false, true, false) => !kind.is_into_existing(),
             (false, false, true) => kind.is_from(),
@@ -556,6 +557,9 @@ fn validate_variant_arm(input: &Variant, data_type_attrs: &DataTypeAttrs, errors
 
         if !supported {
             errors.insert(format!("Variant {}: this combination of a variant-level trait instruction, #[literal(...)] and #[pattern(...)] is not supported for #[{}({}...)] trait instruction", input.ident, FallibleKind(kind, data_type_attr.fallible), ty.path_str), input.ident.span());
+        } else if input.attrs.pat(ty).is_some() && attr.is_some_and(|x| !x.has_action()) {
+            // the arm of a #[pattern(...)] variant on the 'into' side is the expression of its instruction: a name alone leaves it empty
+            errors.insert(format!("Variant {}: the variant-level trait instruction of a #[pattern(...)] variant should have an expression, that is what #[{}({}...)] converts the variant to", input.ident, FallibleKind(kind, data_type_attr.fallible), ty.path_str), input.ident.span());
         }
     }
 }
